@@ -7,6 +7,9 @@ CONSTANTS
   MaxT = 1
   Phases <- encrypt_t_Phases
   ShapeSet <- encrypt_t_Shapes
+  Signers = {"s1", "s2"}
+  Recipients = {"r1", "r2"}
+  Policies <- encrypt_t_Policies
   CfgName = "encrypt_t"
 INIT Init
 NEXT Next
